@@ -809,8 +809,18 @@ func blockedRepoGoroutines() string {
 			bubble = bubble[:j]
 		}
 	}
+	// earlier runs leave frozen goroutines behind, so the dump of a long-lived worker is large:
+	// grow the buffer until everything fits (a truncated dump would lose this run's goroutines
+	// and change the violation signature from worker to replay)
 	buf := make([]byte, 4<<20)
-	buf = buf[:runtime.Stack(buf, true)]
+	for {
+		n := runtime.Stack(buf, true)
+		if n < len(buf) || len(buf) >= 1<<30 {
+			buf = buf[:n]
+			break
+		}
+		buf = make([]byte, 2*len(buf))
+	}
 	var out []string
 	for _, g := range strings.Split(string(buf), "\n\n") {
 		lines := strings.Split(g, "\n")
